@@ -751,6 +751,9 @@ _VALUE_METHODS = {
 _VALUE_METHODS = dict(_VALUE_METHODS, **{"__all__": set().union(*_VALUE_METHODS.values())})
 
 
+SAMPLE_CWD = "/<working directory>"
+
+
 class SampleObj(dict):
     """A sample object for mini_exec: attributes are the dict's entries (`__kind__` names its class for isinstance)."""
     __hash__ = object.__hash__
@@ -1041,6 +1044,13 @@ def mini_exec(fn: ast.FunctionDef, args: Dict[str, object], budget: int = 2000, 
             if not all(isinstance(x, (str, _pl.PurePath)) for x in a_):
                 raise _PathEval.Unknown("Path of something that is not text")
             return _pl.PurePosixPath(*a_)
+        if isinstance(e, ast.Call) and unparse(e.func) in ("os.path.abspath", "osp.abspath") and len(e.args) == 1:
+            import posixpath as _pp
+            a0_ = ev(e.args[0])
+            a0_ = str(a0_) if hasattr(a0_, "as_posix") else a0_
+            if not isinstance(a0_, str):
+                raise _PathEval.Unknown("abspath of something that is not text")
+            return _pp.normpath(_pp.join(SAMPLE_CWD, a0_))
         if isinstance(e, ast.Call) and unparse(e.func) in ("os.path.basename", "os.path.dirname", "os.path.splitext", "os.path.join", "osp.basename", "osp.dirname",
                                                             "osp.splitext", "osp.join", "os.path.normpath", "osp.normpath", "os.fspath", "str.lower"):
             import posixpath as _pp
@@ -3773,7 +3783,7 @@ def _st_writes(st) -> Set[str]:
     return out
 
 
-def slice_eval(fn, target: ast.expr, env: Dict[str, object], **kw):
+def slice_eval(fn, target: ast.expr, env: Dict[str, object], frozen=(), **kw):
     """The value of `target` (an expression inside fn) on the sample environment: only the statements of fn that the value depends
     on - the backward slice, with the headers of the loops and conditions around them - are run, up to the statement that holds
     the expression.  A big emitter can thus be asked for one slot of its template without interpreting the rest of it."""
@@ -3799,6 +3809,7 @@ def slice_eval(fn, target: ast.expr, env: Dict[str, object], **kw):
             w = _st_writes(st)
             if isinstance(st, (ast.For, ast.comprehension)):
                 w |= {t.id for t in ast.walk(st.target) if isinstance(t, ast.Name)}
+            w = w - set(frozen)              # names the caller supplies as samples: the statements that bind them are not run
             # a jump decides which of the kept statements run: `continue` / `break` inside a kept loop, `return` / `raise` anywhere before
             jump = False
             if isinstance(st, (ast.Continue, ast.Break)):
